@@ -453,8 +453,20 @@ def entry_self(p):
 
 def occ_parts(v):
     """OccupiedEntry value -> index term"""
-    if v[0] == 'adt' and v[1] == OCC and v[3][0][0] == 'int':
-        return v[3][0][1]
+    # (layout-independent: the one integer field, wherever it sits and whatever else the struct carries)
+    if v[0] == 'adt' and v[1] == OCC:
+        ints = [x for x in v[3] if x[0] == 'int']
+        if len(ints) == 1:
+            return ints[0][1]
+    return None
+
+
+def vac_key(v):
+    """VacantEntry value -> the key it carries (the one field that is not the table reference)"""
+    if v is not None and v[0] == 'adt' and v[1] == VAC:
+        c = [x for x in v[3] if x[0] != 'ref']
+        if len(c) == 1:
+            return c[0]
     return None
 
 
@@ -494,7 +506,7 @@ def h_entry(ctx, p):
     m = p.miss()
     ctx.req('SCAN', tag_eq(z, m, K) or m == ('<empty>',), nm + ':miss',
             'Vacant requires that every live key was compared with the supplied key', p)
-    ok = isent and names[v[2]] == 'Vacant' and v[3][0][0] == 'adt' and v[3][0][3] and tag_eq(z, vtag(v[3][0][3][0]), K)
+    ok = isent and names[v[2]] == 'Vacant' and vac_key(v[3][0]) is not None and tag_eq(z, vtag(vac_key(v[3][0])), K)
     ctx.req('OUT', ok, nm + ':miss-result', 'an absent key must give Vacant holding the supplied key', p)
     if not z.entails_lt(p.ms.len0, p.ms.cap):
         ctx.classes['miss-any-fill'] += 1
@@ -621,7 +633,7 @@ def h_and_modify(ctx, p):
         return
     ctx.classes['vacant'] += 1
     ctx.req('ARMCALL', not calls, nm + ':vacant', 'the closure must not run for a vacant entry', p)
-    ok = isent and names[v[2]] == 'Vacant' and v[3][0][0] == 'adt' and tag_eq(p.z, vtag(v[3][0][3][0]), ev[1])
+    ok = isent and names[v[2]] == 'Vacant' and vac_key(v[3][0]) is not None and tag_eq(p.z, vtag(vac_key(v[3][0])), ev[1])
     ctx.req('OUT', ok and p.untouched() and p.len_is(0), nm + ':vacant-result',
             'and_modify on a vacant entry must hand back the same vacant entry and change nothing', p)
 
@@ -652,25 +664,25 @@ def h_occ(kind):
 
 def h_vac_insert(ctx, p):
     v = p.self0
-    if v is None or v[0] != 'adt' or v[1] != VAC:
+    if vac_key(v) is None:
         ctx.req('OUT', False, 'insert', 'cannot resolve the VacantEntry receiver', p)
         return
-    _vacant_insert(ctx, p, vtag(v[3][0]), p.arg[1])
+    _vacant_insert(ctx, p, vtag(vac_key(v)), p.arg[1])
 
 
 def h_vac_key(ctx, p):
     """VacantEntry::key(): a reference to the key the entry was created with; nothing is touched"""
     v = p.self0
     ctx.classes['vacant'] += 1
-    ok = v is not None and v[0] == 'adt' and v[1] == VAC
+    ok = vac_key(v) is not None
     t = p.E.rtag(p.st, p.val) if ok else None
-    ctx.req('OUT', ok and tag_eq(p.z, t, vtag(v[3][0])) and p.untouched() and p.len_is(0), 'key',
+    ctx.req('OUT', ok and tag_eq(p.z, t, vtag(vac_key(v))) and p.untouched() and p.len_is(0), 'key',
             'must return a reference to the key the vacant entry was created with', p)
 
 
 def h_vac_into_key(ctx, p):
     v = p.self0
-    ok = v is not None and v[0] == 'adt' and tag_eq(p.z, vtag(p.val), vtag(v[3][0]))
+    ok = vac_key(v) is not None and tag_eq(p.z, vtag(p.val), vtag(vac_key(v)))
     ctx.req('OUT', ok and p.untouched() and p.len_is(0), 'into_key', 'must return the key the entry was created with', p)
 
 
